@@ -123,6 +123,14 @@ def ctx(sid: str, spec: dict | None = None) -> Ctx:
     """Zoo member by id, or an ad-hoc (family) schema when spec is given."""
     if sid in _ctx_cache:
         return _ctx_cache[sid]
+    if spec is None and sid.startswith("pair"):
+        # both members of an isolation pair, always in the prescribed creation order (see schemas.pair_specs)
+        tag = sid[5:]
+        for kind in zoo.PAIR_ORDERS[tag]:
+            k = f"pair{kind}{tag}"
+            if k not in _ctx_cache:
+                _ctx_cache[k] = Ctx(k, zoo_specs()[k])
+        return _ctx_cache[sid]
     if spec is None:
         spec = zoo_specs()[sid]
     c = Ctx(sid, spec)
